@@ -35,8 +35,37 @@ def first_class(tbl, v):
     return rows[0][0] if rows and not rows[0][1] else ("guarded" if rows else "missing")
 
 
+DISALLOWED_FLOAT = {"total_cmp": "f64::total_cmp orders -0 < +0 and gives NaN a position; Lua compares with the IEEE partial order",
+                    "max": "f64::max/min ignore NaN", "min": "f64::max/min ignore NaN", "clamp": "panics/ignores NaN",
+                    "to_bits": "bit comparison distinguishes -0 and +0 and equates NaNs"}
+
+
+def float_order(R, ctx):
+    rid = "C08.ieee"
+    lib = ctx.lib
+    R.rule(rid, "the evaluator never compares or selects f64 values through APIs whose NaN / signed-zero behaviour differs from Lua's IEEE "
+                "comparison (f64::total_cmp, max, min, clamp, to_bits): who-may-call rule with expected count zero and a positive control")
+    n = 0
+    control = {"k": "Call", "fname": "total_cmp", "fn": "core::f64::<impl f64>::total_cmp", "args": []}
+    R.ob(rid, "detector|fires-on-synthetic-call", _is_disallowed(control), "", "positive control", nontrivial=False)
+    for f in lib.fn_list:
+        if not f["path"].startswith("process::evaluator::") or not thir.body_of(f) or "::test" in f["path"]:
+            continue
+        n += 1
+        for c in thir.fn_refs(f):
+            if _is_disallowed(c):
+                R.ob(rid, "%s|%s" % (f["path"].split("::")[-1], c["fname"]), False, ctx.where(f, c.get("ln")),
+                     "evaluator uses %s: %s" % (c["fn"], DISALLOWED_FLOAT[c["fname"]]))
+    R.ob(rid, "evaluator-functions-scanned", n >= 25, "", "%d evaluator functions scanned (floor 25)" % n)
+
+
+def _is_disallowed(c):
+    return c.get("fname") in DISALLOWED_FLOAT and ("f64" in (c.get("fn") or "") or "f32" in (c.get("fn") or ""))
+
+
 def run(R, ctx):
     lib = ctx.lib
+    float_order(R, ctx)
     R.explanation = (
         "Decision tables of the evaluator's match expressions (variant -> constant / recurse), compared with the soundness skeleton an "
         "abstract interpreter of Lua needs: opaque leaves are Unknown, calls are effectful, unknown means 'maybe metatable', multi-value "
